@@ -372,3 +372,76 @@ proof!(14, fn c15_shm_pool_grow() {
     }
     canaries();
 });
+
+/// C14 (relocation): the shm pool allocator together with its management memory and a stand-in for
+/// the payload segment in ONE block that is byte-copied to a fresh address in the middle of an
+/// allocate / deallocate history (what a process sees that maps the segment elsewhere).  Offsets
+/// must match the twin that stayed, and the old mapping - scribbled, kept alive - must stay
+/// untouched: the allocator may use the creator's start address as a number, never as a pointer.
+#[repr(C)]
+pub struct ShmPoolBlock {
+    alloc: shm_pool::PoolAllocator,
+    mgmt: [u64; 8],
+    payload: [u64; 4],
+    held: [bool; 4],
+}
+
+impl crate::c14::Reloc for ShmPoolBlock {
+    unsafe fn mk(at: *mut Self) {
+        unsafe {
+            let payload = core::ptr::addr_of_mut!((*at).payload) as *mut u8;
+            let mgmt = core::ptr::addr_of_mut!((*at).mgmt) as *mut u8;
+            let cfg = shm_pool::Config { bucket_layout: Layout::from_size_align(8, 8).unwrap() };
+            let seg = NonNull::slice_from_raw_parts(NonNull::new(payload).unwrap(), 32);
+            core::ptr::addr_of_mut!((*at).alloc).write(shm_pool::PoolAllocator::new_uninit(8, seg, &cfg));
+            core::ptr::addr_of_mut!((*at).held).write([false; 4]);
+            core::ptr::addr_of_mut!((*at).mgmt).write([0x0101_0101_0101_0101; 8]);
+            let ma = BumpAllocator::new(NonNull::new(mgmt).unwrap(), 64);
+            assert!((*at).alloc.init(&ma).is_ok());
+        }
+    }
+    fn op(&mut self, code: u8, arg: u64) -> u64 {
+        let bl = Layout::from_size_align(8, 8).unwrap();
+        let ia = unsafe { self.alloc.assume_init() };
+        if code & 1 == 0 {
+            match ia.allocate(bl) {
+                Ok(o) => {
+                    let idx = o.offset() / 8;
+                    assert!(idx < 4 && !self.held[idx], "c14/c15: pool handed out a live bucket");
+                    self.held[idx] = true;
+                    o.offset() as u64
+                }
+                Err(_) => crate::c14::NONE,
+            }
+        } else {
+            let idx = (arg % 4) as usize;
+            if self.held[idx] {
+                self.held[idx] = false;
+                unsafe { ia.deallocate(PointerOffset::new(idx * 8), bl) };
+                1
+            } else {
+                0
+            }
+        }
+    }
+    fn observe(&mut self) -> u64 {
+        let mut r = 0u64;
+        let mut i = 0;
+        while i < 4 {
+            if self.held[i] {
+                r |= 1 << i;
+            }
+            i += 1;
+        }
+        r
+    }
+    const KEEP_OLD: bool = true;
+    unsafe fn old_intact(old: *const Self) -> bool {
+        unsafe {
+            let p = core::ptr::addr_of!((*old).payload) as *const u64;
+            *p == u64::MAX && *p.add(1) == u64::MAX && *p.add(2) == u64::MAX && *p.add(3) == u64::MAX
+        }
+    }
+}
+
+proof!(8, fn c14_shm_pool_relocation() { crate::c14::relocation::<ShmPoolBlock, 3>(); canaries(); });
